@@ -378,10 +378,15 @@ def explore_hardware(ctx, rule, n):
                 rec = devmon.RecClient()
                 router.register_client(rec)
                 vec = D.vector_of(drv, "g", "sw")
-                router.process_message(M.GetProperties(version="1.7"), sender=rec)        # settle on selection i
+                case = {"mode": "hardware", "rule": rule, "n": n}
+                try:
+                    router.process_message(M.GetProperties(version="1.7"), sender=rec)        # settle on selection i
+                except Exception as e:
+                    ctx.violate(f"operation-raises:hardware-selector:first-getProperties:{type(e).__name__}",
+                                f"{rule} n={n}: selector at {i}, the first getProperties: {e!r}"[:300], case)
+                    continue
                 del rec.received[:]
                 hw["sel"] = N(j) if j is not None else None
-                case = {"mode": "hardware", "rule": rule, "n": n}
                 ctx.count("transitions")
                 ctx.count("hardware_selector_moves")
                 ctx.case_fast(("hardware", rule, n, i, j, route))
@@ -391,7 +396,7 @@ def explore_hardware(ctx, rule, n):
                     else:
                         router.process_message(M.GetProperties(version="1.7", device="DEV"), sender=rec)
                 except Exception as e:
-                    ctx.violate(f"operation-raises:hardware-selector:{route}:{type(e).__name__}", f"{rule} n={n}: selector {i} -> {j}, {route}: {e!r}", case)
+                    ctx.violate(f"operation-raises:hardware-selector:{route}:{type(e).__name__}", f"{rule} n={n}: selector {i} -> {j}, {route}: {e!r}"[:300], case)
                     continue
                 for m in rec.received:
                     if type(m).__name__ not in ("SetSwitchVector", "DefSwitchVector"):
